@@ -36,7 +36,8 @@ def parseCands : List String → Option (List Cand)
     some (c :: r)
 
 def parseFlag (f : String) : Option Flag :=
-  if f == "n" then some Flag.none else if f == "y" then some Flag.yes else if f == "u" then some Flag.no else none
+  if f == "n" then some Flag.none else if f == "y" then some Flag.yes else if f == "u" then some Flag.no
+  else if f == "o" then some Flag.other else none
 
 /-- block tokens: `a:f:v:l` = changed account, `xa:v` = extra raw vote log -/
 def parseToks : List String → Option (List Change × List Cand)
@@ -119,6 +120,25 @@ def step (s : St) (w : List String) : St × String :=
           let keep := s.blocks.filter (fun p => isAnc s id fuel p.1)
           let s' := { s with blocks := keep, stable := id, persist := persist }
           (s', s!"persist={showCands (sortAddr persist)}")
+    | none => (s, "bad-op")
+  | ["stablecrash", id] =>
+    -- SetStableBlock(id), the process dies in the commit of `id` between SetCurrentBlock and
+    -- Context.Flush, and the node is started again: stable = id, candidate list without id's changes
+    match id.toNat? with
+    | some id =>
+      if id == s.stable then (s, "err")
+      else match getBlk s id with
+        | none => (s, "err")
+        | some b =>
+          let fuel := s.blocks.length + 1
+          let path := (pathUp s fuel id).reverse
+          let persist := (path.dropLast).foldl (fun p i =>
+            match getBlk s i with
+            | some b => commitPersist p b.changes
+            | none => p) s.persist
+          let nb := restartBlk true s.max persist b
+          ({ s with blocks := [(id, nb)], stable := id, persist := persist },
+           s!"persist={showCands (sortAddr persist)} {showBlk nb}")
     | none => (s, "bad-op")
   | ["reopen"] =>
     match getBlk s s.stable with
